@@ -116,8 +116,16 @@ def run_impl(cases, workdir, batch_size=6, profile="debug", compile_timeout=100,
             for j, c in enumerate(grp):
                 sb = Batch(workdir, 1000 + b.idx * 100 + j, [(c.name, c.d)])
                 sb.build(paths, extra_parens=extra_parens, timeout=compile_timeout, opt=(profile == "release"))
+                if sb.compile_rc == -9:
+                    # a time-out is reported only when the definition, compiled alone, also exceeds a six times
+                    # larger limit (a loaded machine must not look like a macro that does not terminate)
+                    sb.build(paths, extra_parens=extra_parens, timeout=compile_timeout * 6, opt=(profile == "release"))
+                    stats["slow_retries"] = stats.get("slow_retries", 0) + 1
                 todo.append((sb, [c]))
             stats["bisected"] += 1
+        elif not ok and b.compile_rc == -9:
+            b.build(paths, extra_parens=extra_parens, timeout=compile_timeout * 6, opt=(profile == "release"))
+            stats["slow_retries"] = stats.get("slow_retries", 0) + 1
         for bb, g in todo:
             stats["compile_s_max"] = max(stats["compile_s_max"], bb.compile_s)
             if bb.compile_rc != 0:
